@@ -12,7 +12,13 @@ cmake -G Ninja -S "$REPO" -B "$B/build" -DCMAKE_BUILD_TYPE=RelWithDebInfo -DCMAK
 cmake --build "$B/build" -j16 >"$B/build.log" 2>&1 || { tail -50 "$B/build.log"; echo "BASELINE build failed"; exit 2; }
 run_one() {
   t=$1; n=$(basename "$t"); w="$2/run-$n"; mkdir -p "$w"; cd "$w"
-  timeout 900 "$t" >"$w/out.txt" 2>&1; echo "$?" >"$w/status"
+  timeout 900 "$t" >"$w/out.txt" 2>&1; st=$?
+  # testmatrix Test53 draws 9 time-seeded integers and aborts when one of them is 0 (about 4 % of wall-clock seconds, pinned
+  # tree included; abort() also discards the buffered OK lines): retry a failing executable twice, a second apart
+  for try in 1 2; do
+    if [ "$st" != 0 ] && [ "$n" != testica ]; then sleep 2; timeout 900 "$t" >"$w/out.txt" 2>&1; st=$?; fi
+  done
+  echo "$st" >"$w/status"
 }
 export -f run_one
 ls "$B"/build/src/tests/test* | xargs -P8 -I{} bash -c 'run_one {} '"$B"
@@ -23,7 +29,7 @@ for w in "$B"/run-*; do
   nok=$((nok + $(grep -a -c ': OK' "$w/out.txt")))
   echo "EXIT $n $s"
   # testica aborts in the pinned build as well (pre-existing; not among the 62 baseline names)
-  if [ "$s" != 0 ] && [ "$n" != testica ]; then rc=1; fi
+  if [ "$s" != 0 ] && [ "$n" != testica ]; then rc=1; echo "--- last lines of $n (exit $s):"; tail -5 "$w/out.txt"; fi
 done
 # every pinned baseline name must be among the OK lines
 if [ -f /root/.vp/BASELINE.json ]; then
